@@ -10,6 +10,7 @@ import Proofs.C01
 import Proofs.Lemmas.InprocAll
 import Proofs.Lemmas.InprocUnaryAll
 import Proofs.Lemmas.HttpServerStream
+import Proofs.Lemmas.Metadata
 
 namespace InprocStream
 
@@ -228,3 +229,23 @@ theorem C02_http_server_no_trailer_after_failed_write (s1 : St) (e : Option HErr
   · simp [stepLive, hw] at h2; obtain ⟨rfl, rfl⟩ := h2; rfl
 
 end HttpServerStream
+
+namespace Metadata
+
+/-- **Error details are byte-exact over HTTP** (unary): the unpadded URL base64 that carries each
+    marshalled detail in an `X-GRPC-Details` header round-trips for every byte string of any length
+    (lengths 1 and 2 mod 3 included) — whatever message type the detail holds. -/
+theorem C02_details_b64_roundtrip (bs : B) (h : ∀ x ∈ bs, x < 256) : b64rawdec (b64rawenc bs) = some bs :=
+  b64raw_roundtrip bs h
+
+/-- …and the header value consists of header-safe ASCII only -/
+theorem C02_details_header_safe (bs : B) : ∀ x ∈ b64rawenc bs, 32 < x ∧ x < 128 := by
+  intro x hx; have := b64rawenc_safe bs x hx; exact ⟨this.2, this.1⟩
+
+/-- the encoding site (`handleMethod`) and the decoding site (`statFromResponse`) use the same,
+    unpadded URL variant — regenerated from the source on every run -/
+theorem C02_details_codec_sites : detailSitesPaired = true := by decide
+
+example : b64rawenc [0, 10, 255, 7] = [65, 65, 114, 95, 66, 119] ∧ b64rawdec (b64rawenc [0, 10, 255, 7]) = some [0, 10, 255, 7] := by decide
+
+end Metadata
